@@ -216,6 +216,59 @@ theorem C18_shared (cfg : Cfg) (env : Env) (b : Nat) (pre : Bool) (progs : List 
         · exact hk
       exact lookup_key cfg env b pre progs sched v1 fu.shape hval hkey
 
+/-! ## The interpreter of the tie and the theorems
+
+Every view the interpreter (Model/Reshape.lean part 3) predicts is the producer's own copy or an instance of the conversion
+`reshape`, so `C18_selected` applies to it; and outside finding F1 the behaviour as coded is the documented one. -/
+
+theorem basePromise_cases (p : Prog) (pc : Copy) (ot : Option Nat) :
+    basePromise p pc ot = (pc.dtt, pc, true) ∨
+    ∃ t, basePromise p pc ot = (t, ⟨t, sendrecv (offsOf p t) (offsOf p t) pc.mem (freshMem p)⟩, false) := by
+  unfold basePromise
+  cases ot with
+  | none => exact Or.inl rfl
+  | some o =>
+    simp only []
+    by_cases ho : o = pc.dtt
+    · rw [if_pos ho]; exact Or.inl rfl
+    · rw [if_neg ho]; exact Or.inr ⟨o, rfl⟩
+
+/-- every view of the interpreter is the producer's own copy or an instance of the conversion the theorems are about -/
+theorem localView_is_reshape (p : Prog) (pc : Copy) (ot : Option Nat) (c : Cons) :
+    (localView p pc ot c).1 = pc ∨ ∃ s d, (localView p pc ot c).1 = ⟨d, reshape (shapeOf s) (shapeOf d) p.mb p.nb p.ld pc.mem (freshMem p)⟩ := by
+  rcases basePromise_cases p pc ot with h | ⟨t0, h⟩
+  · cases hit : c.it with
+    | none => left; simp [localView, h, hit]
+    | some t =>
+      by_cases ht : t = pc.dtt
+      · left; simp [localView, h, hit, ht]
+      · right; exact ⟨pc.dtt, t, by simp [localView, h, hit, ht, reshape, offsOf]⟩
+  · cases hit : c.it with
+    | none => right; exact ⟨t0, t0, by simp [localView, h, hit, reshape, offsOf]⟩
+    | some t =>
+      by_cases ht : t = t0
+      · right; exact ⟨t0, t0, by simp [localView, h, hit, ht, reshape, offsOf]⟩
+      · right; exact ⟨t0, t, by simp [localView, h, hit, ht, reshape, offsOf]⟩
+
+theorem remoteView_is_reshape (p : Prog) (w k ci : Nat) (c : Cons) :
+    ∃ s d, (remoteView p w k ci c).1 = ⟨d, reshape (shapeOf s) (shapeOf d) p.mb p.nb p.ld (prodOut p k).mem (freshMem p)⟩ := by
+  refine ⟨c.orr.getD (prodOut p k).dtt, recvType c, ?_⟩
+  unfold remoteView
+  simp only []
+  split <;> rfl
+
+/-- outside finding F1 (no producer instance has local output dependencies of different types) the behaviour as coded is
+    the documented one for every local consumer -/
+theorem coded_eq_doc_of_not_mixed (p : Prog) (w k : Nat) (c : Cons) (hk : k < p.nt) (hc : c ∈ p.cons) (hl : isLocal w k c = true)
+    (h : mixedLocal p w = false) : localViewCoded p w k c = localViewDoc p k c := by
+  unfold mixedLocal at h
+  have h1 := (List.any_eq_false.1 h) k (List.mem_range.2 hk)
+  have h2 : (firstLocalType p w k).getD c.ot = c.ot := by
+    have := (by simpa using h1 : ∀ (x : Cons), x ∈ p.cons → isLocal w k x = true → (firstLocalType p w k).getD x.ot = x.ot)
+    exact this c hc hl
+  unfold localViewCoded localViewDoc
+  rw [h2]
+
 /-! ## Non-vacuity and the finding -/
 
 /-- the conversions of tests/collections/reshape on a 3 × 3 tile: lower → lower keeps positions, lower → upper moves them -/
